@@ -61,3 +61,215 @@ Proof.
     split; [tauto|]. split; [tauto|].
     destruct (n =? 0); apply xok_inj in H; subst b; eexists; (split; [reflexivity|reflexivity]).
 Qed.
+
+(* ---------------------------------------------------------------- sequencing in the [ares] monad *)
+Lemma adec_bind {A} (r : ares A) (f : A -> ares (val * dst)) bs pos' P a n :
+  r = (Ok a, n) -> adec_ok (f a) bs pos' P -> adec_ok (abind r f) bs pos' P.
+Proof. intros -> (v & d' & al & E & H). cbn [abind]. rewrite E. exists v, d', (n + al). auto. Qed.
+
+Lemma adec_lift {A} (r : sres A) (k : A * dst -> ares (val * dst)) bs p1 p2 P a :
+  dec_ok r bs p1 a -> (forall d1, at_pos d1 bs p1 -> adec_ok (k (a, d1)) bs p2 P) -> adec_ok (abind (alift r) k) bs p2 P.
+Proof. intros (d1 & -> & H1) Hk. cbn [alift]. eapply adec_bind; [reflexivity|]. apply Hk. exact H1. Qed.
+
+Lemma adec_ret v d bs pos (P : val -> Prop) : at_pos d bs pos -> P v -> adec_ok (aret (v, d)) bs pos P.
+Proof. intros H HP. exists v, d, 0. auto. Qed.
+
+(* the value-extension bit of an in-root value *)
+Lemma read_ext0 (ext : bool) d bs pos (k : bool * dst -> ares (val * dst)) p2 P :
+  at_pos d bs pos -> buf bs -> bits_at bs pos (if ext then [false] else []) ->
+  (forall d1, at_pos d1 bs (pos + length (if ext then [false] else @nil bool)) -> adec_ok (k (false, d1)) bs p2 P) ->
+  adec_ok (abind (if ext then alift (dos (b, s) <- getBitsValue d 1; (Ok (negb (b =? 0)), s)) else aret (false, d)) k) bs p2 P.
+Proof.
+  intros Hd Hb Hbits Hk. destruct ext.
+  - eapply adec_lift; [apply (rd_ext_bit d bs pos false); auto|]. intros d1 Hd1. apply Hk. exact Hd1.
+  - eapply adec_bind; [reflexivity|]. apply Hk. cbn [length]. rewrite Nat.add_0_r. exact Hd.
+Qed.
+
+Lemma parseOctetString_ext d lbp ubp : parseOctetString d true lbp ubp = parseOctetString d false None None.
+Proof. reflexivity. Qed.
+Lemma parseBitString_ext d lbp ubp : parseBitString d true lbp ubp = parseBitString d false None None.
+Proof. reflexivity. Qed.
+
+Definition is_leaf (t : ty) : Prop := match t with TInt | TEnum | TBool | TBits | TOctets | TString => True | _ => False end.
+
+Theorem leaf_dec t : is_leaf t -> forall f1 f2 f3 f4 p av bs pos b d,
+  supa_f (S f4) t p av = true -> x691 (t2a (S f1) t p) av pos = XOk b -> buf bs -> at_pos d bs pos ->
+  bits_at bs pos b -> (pos < 8 * length bs)%nat ->
+  adec_ok (parseField (S f3) t p d) bs (pos + length b) (fun v' => abs_f (S f2) t p v' = Some av).
+Proof.
+  intros Ht f1 f2 f3 f4 p av bs pos b d Hs Hx Hb Hd Hbits Hpos.
+  pose proof (not_truncated d bs pos Hd Hpos) as Htr.
+  destruct t; try contradiction; cbn [supa_f] in Hs; cbn [t2a] in Hx; cbn [parseField]; rewrite Htr.
+  - (* INTEGER *)
+    destruct av; try discriminate. apply andb_true_iff in Hs. destruct Hs as [Hs Hse].
+    assert (Ese : p_sizeExt p = false) by (destruct (p_sizeExt p); [discriminate|reflexivity]). rewrite Ese.
+    eapply adec_bind; [reflexivity|]. cbv beta iota. rewrite andb_true_r.
+    unfold int_ok in Hs. destruct (p_valueLB p) as [l|]; [|discriminate]. destruct (p_valueUB p) as [u|]; [|discriminate]. bools.
+    cbn [x691] in Hx. unfold enc_int in Hx.
+    assert ((l <=? z)%Z && (z <=? u)%Z = true) as Ein by lia. rewrite Ein in Hx. cbn [negb] in Hx. rewrite andb_false_r in Hx.
+    destruct (cwn _ _ _) as [e| |] eqn:Ee; cbn [xbind] in Hx; try discriminate. apply xok_inj in Hx. subst b.
+    apply bits_at_app in Hbits. destruct Hbits as [Hb1 Hb2].
+    apply (read_ext0 (p_valueExt p) d bs pos); auto. intros d1 Hd1. cbv beta iota.
+    eapply adec_lift.
+    + apply (rd_int d1 bs (pos + length (if p_valueExt p then [false] else @nil bool))%nat l u z e); auto; try lia.
+    + intros d2 Hd2. cbv beta iota. apply adec_ret; [|reflexivity]. rewrite app_length, Nat.add_assoc. exact Hd2.
+  - (* ENUMERATED *)
+    destruct av; try discriminate. apply andb_true_iff in Hs. destruct Hs as [Hs Hse].
+    assert (Ese : p_sizeExt p = false) by (destruct (p_sizeExt p); [discriminate|reflexivity]). rewrite Ese.
+    eapply adec_bind; [reflexivity|]. cbv beta iota. rewrite andb_true_r.
+    unfold enum_ok in Hs. destruct (p_valueLB p) as [[| |]|]; try discriminate. destruct (p_valueUB p) as [u|]; [|discriminate]. bools.
+    assert ((u <? 0)%Z = false) as E by lia. rewrite E in Hx. cbn [x691] in Hx.
+    destruct (Z.to_N u + 1 <=? i) eqn:Ei; [discriminate|].
+    destruct (cwn _ _ _) as [e| |] eqn:Ee; cbn [xbind] in Hx; try discriminate. apply xok_inj in Hx. subst b.
+    apply bits_at_app in Hbits. destruct Hbits as [Hb1 Hb2].
+    apply (read_ext0 (p_valueExt p) d bs pos); auto. intros d1 Hd1. cbv beta iota.
+    eapply adec_lift.
+    + apply (rd_enum d1 bs (pos + length (if p_valueExt p then [false] else @nil bool))%nat u i e); auto; lia.
+    + intros d2 Hd2. cbv beta iota. apply adec_ret; [|reflexivity]. rewrite app_length, Nat.add_assoc. exact Hd2.
+  - (* BOOLEAN *)
+    destruct av; try discriminate. bools.
+    assert (Ese : p_sizeExt p = false) by (destruct (p_sizeExt p); [discriminate|reflexivity]).
+    assert (Eve : p_valueExt p = false) by (destruct (p_valueExt p); [discriminate|reflexivity]). rewrite Ese, Eve.
+    eapply adec_bind; [reflexivity|]. cbv beta iota. cbn [andb]. eapply adec_bind; [reflexivity|]. cbv beta iota.
+    cbn [x691] in Hx. apply xok_inj in Hx. subst b.
+    eapply adec_lift; [apply (rd_bool d bs pos b0); auto|]. intros d2 Hd2. cbv beta iota. apply adec_ret; [exact Hd2|reflexivity].
+  - (* BIT STRING *)
+    destruct av; try discriminate. apply andb_true_iff in Hs. destruct Hs as [Hs Hve].
+    assert (Eve : p_valueExt p = false) by (destruct (p_valueExt p); [discriminate|reflexivity]). rewrite Eve.
+    unfold str_ok in Hs. apply andb_true_iff in Hs. destruct Hs as [Hn Hs].
+    destruct (p_sizeLB p) as [l|] eqn:Elb, (p_sizeUB p) as [u|] eqn:Eub; try discriminate.
+    + bools. rewrite size_lb_some, size_ub_some in Hx by lia. cbn [x691] in Hx.
+      assert (Hfin : forall pre b' d1 (extd : bool),
+                 b = pre ++ b' -> at_pos d1 bs (pos + length pre) ->
+                 (if extd then enc_string 0 None false (N.of_nat (length bs0)) bs0 false (pos + length pre) = XOk b'
+                  else Z.to_N l <= N.of_nat (length bs0) <= Z.to_N u /\
+                       enc_string (Z.to_N l) (Some (Z.to_N u)) false (N.of_nat (length bs0)) bs0 (Z.to_N u <=? 16) (pos + length pre) = XOk b') ->
+                 adec_ok (doa (valueExtensible, s) <- aret (false, d1);
+                          doa (bsn, s') <- alift (parseBitString s extd (Some l) (Some u)); (let '(bs1, n) := bsn in aret (VBits bs1 n, s')))
+                   bs (pos + length b) (fun v' => abs_f (S f2) TBits p v' = Some (AVBits bs0))).
+      { intros pre b' d1 extd -> Hd1 Hspec. apply bits_at_app in Hbits. destruct Hbits as [_ Hb2].
+        eapply adec_bind; [reflexivity|]. cbv beta iota.
+        assert (Hr : exists r, dec_ok (parseBitString d1 extd (Some l) (Some u)) bs (pos + length pre + length b') r /\ bits_val r bs0).
+        { destruct extd.
+          - rewrite parseBitString_ext. apply rd_bitstring_unconstrained; auto. unfold len in Hn. lia.
+          - destruct Hspec as [Hin Hspec]. apply rd_bitstring_constrained; auto; lia. }
+        destruct Hr as (r & Hdec & Hbv). eapply adec_lift; [exact Hdec|]. intros d2 Hd2. cbv beta iota.
+        destruct r as [bs1 n1]. destruct Hbv as (Hv1 & Hv2 & Hv3 & Hv4). cbn [fst snd] in *.
+        apply adec_ret; [rewrite app_length, Nat.add_assoc; exact Hd2|].
+        cbn [abs_f]. unfold len in Hv3. rewrite Hv3, N.eqb_refl. cbn [andb].
+        assert (forallb (fun b0 : N => b0 <? 256) bs1 = true) as ->.
+        { apply forallb_forall. intros x Hx'. unfold bok in Hv2. rewrite Forall_forall in Hv2. specialize (Hv2 x Hx'). lia. }
+        rewrite Hv1, Nat2N.id, Hv4. reflexivity. }
+      destruct (p_sizeExt p) eqn:Ese.
+      * cbn [negb orb] in *. apply enc_string_ext in Hx; [|lia|unfold len in *; lia].
+        destruct Hx as [(Hin & b' & -> & Hx)|(Hl & Hu & b' & -> & Hx)].
+        -- eapply adec_lift; [apply (rd_ext_bit d bs pos false); auto; apply (bits_at_app bs pos [false] b'); exact Hbits|].
+           intros d1 Hd1. cbv beta iota. apply (Hfin [false] b' d1 false); auto. rewrite Nat.add_1_r in *. auto.
+        -- eapply adec_lift; [apply (rd_ext_bit d bs pos true); auto; apply (bits_at_app bs pos [true] b'); exact Hbits|].
+           intros d1 Hd1. cbv beta iota. apply (Hfin [true] b' d1 true); auto. rewrite Nat.add_1_r in *. auto.
+      * eapply adec_bind; [reflexivity|]. cbv beta iota. apply (Hfin [] b d false); auto.
+        -- cbn [length]. rewrite Nat.add_0_r. exact Hd.
+        -- cbn [length]. rewrite Nat.add_0_r. split; [|exact Hx].
+           unfold enc_string, size_prefix, size_inroot in Hx. assert (Z.to_N u <? 65536 = true) as Eu by lia. rewrite Eu in Hx.
+           destruct ((Z.to_N l <=? N.of_nat (length bs0)) && (N.of_nat (length bs0) <=? Z.to_N u)) eqn:E; [lia|]. cbn [negb andb] in Hx. discriminate.
+    + cbn [size_lb size_ub x691] in Hx. destruct (p_sizeExt p) eqn:Ese; [discriminate|].
+      eapply adec_bind; [reflexivity|]. cbv beta iota. eapply adec_bind; [reflexivity|]. cbv beta iota.
+      destruct (rd_bitstring_unconstrained d bs pos bs0 b Hd Hb ltac:(unfold len in Hn; lia) Hx Hbits) as (r & Hdec & Hbv).
+      eapply adec_lift; [exact Hdec|]. intros d2 Hd2. cbv beta iota.
+      destruct r as [bs1 n1]. destruct Hbv as (Hv1 & Hv2 & Hv3 & Hv4). cbn [fst snd] in *.
+      apply adec_ret; [exact Hd2|].
+      cbn [abs_f]. unfold len in Hv3. rewrite Hv3, N.eqb_refl. cbn [andb].
+      assert (forallb (fun b0 : N => b0 <? 256) bs1 = true) as ->.
+      { apply forallb_forall. intros x Hx'. unfold bok in Hv2. rewrite Forall_forall in Hv2. specialize (Hv2 x Hx'). lia. }
+      rewrite Hv1, Nat2N.id, Hv4. reflexivity.
+  - (* OCTET STRING *)
+    destruct av; try discriminate. apply andb_true_iff in Hs. destruct Hs as [Hs Hve].
+    assert (Eve : p_valueExt p = false) by (destruct (p_valueExt p); [discriminate|reflexivity]). rewrite Eve.
+    unfold str_ok in Hs. apply andb_true_iff in Hs. destruct Hs as [Hn Hs].
+    destruct (p_sizeLB p) as [l|] eqn:Elb, (p_sizeUB p) as [u|] eqn:Eub; try discriminate.
+    + bools. rewrite size_lb_some, size_ub_some in Hx by lia. cbn [x691] in Hx.
+      destruct (forallb (fun b0 : N => b0 <? 256) bs0) eqn:Eok; [|discriminate]. apply bok_forallb in Eok.
+      assert (Hfin : forall pre b' d1 (extd : bool),
+                 b = pre ++ b' -> at_pos d1 bs (pos + length pre) ->
+                 (if extd then enc_string 0 None false (len bs0) (bits_of_bytes bs0) false (pos + length pre) = XOk b'
+                  else Z.to_N l <= len bs0 <= Z.to_N u /\
+                       enc_string (Z.to_N l) (Some (Z.to_N u)) false (len bs0) (bits_of_bytes bs0) (Z.to_N u <=? 2) (pos + length pre) = XOk b') ->
+                 adec_ok (doa (valueExtensible, s) <- aret (false, d1);
+                          doa (bs1, s') <- alift (parseOctetString s extd (Some l) (Some u)); aret (VOctets bs1, s'))
+                   bs (pos + length b) (fun v' => Some (AVOctets bs0) = Some (AVOctets bs0) /\ v' = VOctets bs0)).
+      { intros pre b' d1 extd -> Hd1 Hspec. apply bits_at_app in Hbits. destruct Hbits as [_ Hb2].
+        eapply adec_bind; [reflexivity|]. cbv beta iota.
+        assert (Hr : dec_ok (parseOctetString d1 extd (Some l) (Some u)) bs (pos + length pre + length b') bs0).
+        { destruct extd.
+          - rewrite parseOctetString_ext. apply rd_octets_unconstrained; auto. lia.
+          - destruct Hspec as [Hin Hspec]. apply rd_octets_constrained; auto; lia. }
+        eapply adec_lift; [exact Hr|]. intros d2 Hd2. cbv beta iota.
+        apply adec_ret; [rewrite app_length, Nat.add_assoc; exact Hd2|auto]. }
+      assert (Hgoal : adec_ok (doa (sizeExtensible, s) <- (if p_sizeExt p then alift (dos (b0, s) <- getBitsValue d 1; (Ok (negb (b0 =? 0)), s)) else aret (false, d));
+                               doa (valueExtensible, s0) <- aret (false, s);
+                               doa (bs1, s') <- alift (parseOctetString s0 sizeExtensible (Some l) (Some u)); aret (VOctets bs1, s'))
+                        bs (pos + length b) (fun v' => Some (AVOctets bs0) = Some (AVOctets bs0) /\ v' = VOctets bs0)).
+      { destruct (p_sizeExt p) eqn:Ese.
+        * cbn [negb orb] in *. apply enc_string_ext in Hx; [|lia|unfold len in *; lia].
+          destruct Hx as [(Hin & b' & -> & Hx)|(Hl & Hu & b' & -> & Hx)].
+          -- eapply adec_lift; [apply (rd_ext_bit d bs pos false); auto; apply (bits_at_app bs pos [false] b'); exact Hbits|].
+             intros d1 Hd1. cbv beta iota. apply (Hfin [false] b' d1 false); auto. rewrite Nat.add_1_r in *. auto.
+          -- eapply adec_lift; [apply (rd_ext_bit d bs pos true); auto; apply (bits_at_app bs pos [true] b'); exact Hbits|].
+             intros d1 Hd1. cbv beta iota. apply (Hfin [true] b' d1 true); auto. rewrite Nat.add_1_r in *. auto.
+        * eapply adec_bind; [reflexivity|]. cbv beta iota. apply (Hfin [] b d false); auto.
+          -- cbn [length]. rewrite Nat.add_0_r. exact Hd.
+          -- cbn [length]. rewrite Nat.add_0_r. split; [|exact Hx].
+             unfold enc_string, size_prefix, size_inroot in Hx. assert (Z.to_N u <? 65536 = true) as Eu by lia. rewrite Eu in Hx.
+             destruct ((Z.to_N l <=? len bs0) && (len bs0 <=? Z.to_N u)) eqn:E; [lia|]. unfold len in E. rewrite E in Hx. cbn [negb andb] in Hx. discriminate. }
+      destruct Hgoal as (v' & d' & al & E & Hat & _ & ->). exists (VOctets bs0), d', al. auto.
+    + cbn [size_lb size_ub x691] in Hx. destruct (p_sizeExt p) eqn:Ese; [discriminate|].
+      destruct (forallb (fun b0 : N => b0 <? 256) bs0) eqn:Eok; [|discriminate]. apply bok_forallb in Eok.
+      eapply adec_bind; [reflexivity|]. cbv beta iota. eapply adec_bind; [reflexivity|]. cbv beta iota.
+      eapply adec_lift; [apply (rd_octets_unconstrained d bs pos bs0 b); auto; lia|]. intros d2 Hd2. cbv beta iota.
+      apply adec_ret; [exact Hd2|reflexivity].
+  - (* string *)
+    destruct av; try discriminate. apply andb_true_iff in Hs. destruct Hs as [Hs Hve].
+    assert (Eve : p_valueExt p = false) by (destruct (p_valueExt p); [discriminate|reflexivity]). rewrite Eve.
+    unfold str_ok in Hs. apply andb_true_iff in Hs. destruct Hs as [Hn Hs].
+    destruct (p_sizeLB p) as [l|] eqn:Elb, (p_sizeUB p) as [u|] eqn:Eub; try discriminate.
+    + bools. rewrite size_lb_some, size_ub_some in Hx by lia. cbn [x691] in Hx.
+      destruct (forallb (fun b0 : N => b0 <? 256) bs0) eqn:Eok; [|discriminate]. apply bok_forallb in Eok.
+      assert (Hfin : forall pre b' d1 (extd : bool),
+                 b = pre ++ b' -> at_pos d1 bs (pos + length pre) ->
+                 (if extd then enc_string 0 None false (len bs0) (bits_of_bytes bs0) false (pos + length pre) = XOk b'
+                  else Z.to_N l <= len bs0 <= Z.to_N u /\
+                       enc_string (Z.to_N l) (Some (Z.to_N u)) false (len bs0) (bits_of_bytes bs0) (Z.to_N u <=? 2) (pos + length pre) = XOk b') ->
+                 adec_ok (doa (valueExtensible, s) <- aret (false, d1);
+                          doa (bs1, s') <- alift (parseOctetString s extd (Some l) (Some u)); aret (VOctets bs1, s'))
+                   bs (pos + length b) (fun v' => Some (AVOctets bs0) = Some (AVOctets bs0) /\ v' = VOctets bs0)).
+      { intros pre b' d1 extd -> Hd1 Hspec. apply bits_at_app in Hbits. destruct Hbits as [_ Hb2].
+        eapply adec_bind; [reflexivity|]. cbv beta iota.
+        assert (Hr : dec_ok (parseOctetString d1 extd (Some l) (Some u)) bs (pos + length pre + length b') bs0).
+        { destruct extd.
+          - rewrite parseOctetString_ext. apply rd_octets_unconstrained; auto. lia.
+          - destruct Hspec as [Hin Hspec]. apply rd_octets_constrained; auto; lia. }
+        eapply adec_lift; [exact Hr|]. intros d2 Hd2. cbv beta iota.
+        apply adec_ret; [rewrite app_length, Nat.add_assoc; exact Hd2|auto]. }
+      assert (Hgoal : adec_ok (doa (sizeExtensible, s) <- (if p_sizeExt p then alift (dos (b0, s) <- getBitsValue d 1; (Ok (negb (b0 =? 0)), s)) else aret (false, d));
+                               doa (valueExtensible, s0) <- aret (false, s);
+                               doa (bs1, s') <- alift (parseOctetString s0 sizeExtensible (Some l) (Some u)); aret (VOctets bs1, s'))
+                        bs (pos + length b) (fun v' => Some (AVOctets bs0) = Some (AVOctets bs0) /\ v' = VOctets bs0)).
+      { destruct (p_sizeExt p) eqn:Ese.
+        * cbn [negb orb] in *. apply enc_string_ext in Hx; [|lia|unfold len in *; lia].
+          destruct Hx as [(Hin & b' & -> & Hx)|(Hl & Hu & b' & -> & Hx)].
+          -- eapply adec_lift; [apply (rd_ext_bit d bs pos false); auto; apply (bits_at_app bs pos [false] b'); exact Hbits|].
+             intros d1 Hd1. cbv beta iota. apply (Hfin [false] b' d1 false); auto. rewrite Nat.add_1_r in *. auto.
+          -- eapply adec_lift; [apply (rd_ext_bit d bs pos true); auto; apply (bits_at_app bs pos [true] b'); exact Hbits|].
+             intros d1 Hd1. cbv beta iota. apply (Hfin [true] b' d1 true); auto. rewrite Nat.add_1_r in *. auto.
+        * eapply adec_bind; [reflexivity|]. cbv beta iota. apply (Hfin [] b d false); auto.
+          -- cbn [length]. rewrite Nat.add_0_r. exact Hd.
+          -- cbn [length]. rewrite Nat.add_0_r. split; [|exact Hx].
+             unfold enc_string, size_prefix, size_inroot in Hx. assert (Z.to_N u <? 65536 = true) as Eu by lia. rewrite Eu in Hx.
+             destruct ((Z.to_N l <=? len bs0) && (len bs0 <=? Z.to_N u)) eqn:E; [lia|]. unfold len in E. rewrite E in Hx. cbn [negb andb] in Hx. discriminate. }
+      destruct Hgoal as (v' & d' & al & E & Hat & _ & ->). exists (VOctets bs0), d', al. auto.
+    + cbn [size_lb size_ub x691] in Hx. destruct (p_sizeExt p) eqn:Ese; [discriminate|].
+      destruct (forallb (fun b0 : N => b0 <? 256) bs0) eqn:Eok; [|discriminate]. apply bok_forallb in Eok.
+      eapply adec_bind; [reflexivity|]. cbv beta iota. eapply adec_bind; [reflexivity|]. cbv beta iota.
+      eapply adec_lift; [apply (rd_octets_unconstrained d bs pos bs0 b); auto; lia|]. intros d2 Hd2. cbv beta iota.
+      apply adec_ret; [exact Hd2|reflexivity].
+Qed.
